@@ -389,6 +389,16 @@ func c20Hook[C any](kind int, rewrite func(*C)) func(int, *C) error {
 		}
 	case 5, 6:
 		return func(_ int, c *C) error { rewrite(c); return nil }
+	case 7: // a hook that dies with a run-time error (a nil map written, an empty slice indexed): a panic like any other
+		return func(i int, _ *C) error {
+			if i%2 == 0 {
+				var m map[string]int
+				m["x"] = 1
+			}
+			var l []int
+			_ = l[i]
+			return nil
+		}
 	}
 	return nil
 }
@@ -434,10 +444,10 @@ func c20JudgeCase(s c20Spec, marshalDir bool) (applicable bool, j c20Judgement) 
 	if marshalDir && s.Constraint == 2 || !marshalDir && s.Constraint == 1 {
 		return false, c20Judgement{oPass, "not applicable"}
 	}
-	if s.Before >= 2 && s.Before <= 4 {
+	if (s.Before >= 2 && s.Before <= 4) || s.Before == 7 {
 		return true, c20Judgement{oFail, "before hook"}
 	}
-	if s.After == 2 || s.After == 3 { // After kinds above 3 are mapped to a passing hook when the cases are built
+	if s.After == 2 || s.After == 3 || s.After == 7 { // After kinds above 3 are mapped to a passing hook when the cases are built
 		return true, c20Judgement{oFail, "after hook"}
 	}
 	// a Before hook receives the case by pointer and may prepare it: what counts is the case after the hook
@@ -637,7 +647,7 @@ func c20Invoke[T any](t *c20T, helper int, withHelper bool, specs []c20Spec, mk 
 		return s
 	}
 	noAfter := func(k int) int {
-		if k > 3 {
+		if k > 3 && k != 7 {
 			return 1
 		}
 		return k
@@ -883,13 +893,13 @@ func c20GenSpec(r *rt.Rand, id int) c20Spec {
 		s.MBeh, s.UBeh = 4, 5
 	}
 	if r.Chance(1, 4) {
-		s.Before = r.Intn(7)
-		if s.Before >= 2 && s.Before <= 4 && r.Chance(2, 3) {
+		s.Before = r.Intn(8)
+		if ((s.Before >= 2 && s.Before <= 4) || s.Before == 7) && r.Chance(2, 3) {
 			s.Before = 1
 		}
 	}
 	if r.Chance(1, 4) {
-		s.After = r.Intn(4)
+		s.After = []int{0, 1, 2, 3, 7}[r.Intn(5)]
 		if s.After >= 2 && r.Chance(2, 3) {
 			s.After = 1
 		}
